@@ -21,14 +21,15 @@ from ..graphfam import random_graph, atlas, atlas_graph
 ID = "C09"
 RULE = ("simple graphs without isolated vertices: atlas graphs with <= 6 vertices (quick: sampled; thorough: all of them for every m0), G(n,p) "
         "n <= 12 (thorough <= 16) with p in {.2,.35,.5,.7,.9}, planted structures (chains of K_k sharing an edge, K_k u K_k sharing K_{k-1}, "
-        "wheels, K_n n<=8, books, rings of K4); m0 in 2..omega+1; schedules first/last/3 seeds + exhaustive tie-break trees up to 64 leaves; "
+        "wheels, K_n n<=8, books, rings of K4), and every 4th (quick) / 10th (thorough) case a large sparse graph (union of 8..24 mostly edge-disjoint cliques plus an "
+        "overlapping cluster, 20..70 vertices, or G(n,p) with n<=40, p<=.15); m0 in 2..omega+1; schedules first/last/3 seeds + exhaustive tie-break trees up to 64 leaves; "
         "non-trivial = a maximal clique larger than m0 overlapping another one, or >= 1 tie-break with >= 2 candidates; distinct = SHA-1 of (graph, m0)")
 ASSUMPTIONS = ["vertices are ints; order of the returned list and of vertices inside a clique is ignored",
                "progress bound: each greedy step must cover a new edge, so more than |E| tie-break calls is a violation"]
 HEADLINE = ["pairs", "runs", "edges_covered_exactly_once", "tie_breaks", "tie_breaks_multi", "exhaustive_trees", "tree_leaves", "trees_truncated",
-            "larger_than_m0", "intact_rule_applied", "greedy_steps", "m0_2", "m0_ge_omega"]
+            "larger_than_m0", "intact_rule_applied", "greedy_steps", "m0_2", "m0_ge_omega", "large_sparse_graphs"]
 REQUIRED = {t: {"runs": 1000, "larger_than_m0": 30, "intact_rule_applied": 30, "greedy_steps": 100, "tie_breaks_multi": 50,
-                "exhaustive_trees": 50, "m0_2": 20, "m0_ge_omega": 20} for t in ("quick", "thorough")}
+                "exhaustive_trees": 50, "m0_2": 20, "m0_ge_omega": 20, "large_sparse_graphs": 10} for t in ("quick", "thorough")}
 SHARD_TIMEOUT = {"quick": 600, "thorough": 7200}
 LEAF_CAP = 64
 
@@ -37,10 +38,11 @@ def gen_cases(tier, seed):
     cases = []
     if tier == "quick":
         for i in range(300):
-            cases.append({"seed": seed * 100267 + i, "nmax": 11})
+            cases.append({"seed": seed * 100267 + i, "nmax": 11, "large": 1.0 if i % 4 == 0 else 0.0, "_cost": 6 if i % 4 == 0 else 1})
     else:
         for i in range(6000):
-            cases.append({"seed": seed * 100267 + i, "nmax": 16 if i % 5 == 0 else 12, "_cost": 4 if i % 5 == 0 else 1})
+            cases.append({"seed": seed * 100267 + i, "nmax": 16 if i % 5 == 0 else 12, "large": 1.0 if i % 10 == 3 else 0.0,
+                          "_cost": 8 if i % 10 == 3 else 4 if i % 5 == 0 else 1})
         for a in atlas(6):
             cases.append({"atlas": a, "seed": seed})
     return cases
@@ -98,11 +100,15 @@ def run_case(case):
         d = "atlas#%d" % case["atlas"]
         g = nx.Graph([tuple(sorted(e)) for e in g.edges()])
     else:
-        d, g = random_graph(rng, nmax=case.get("nmax", 11))
+        d, g = random_graph(rng, nmax=case.get("nmax", 11), large=case.get("large", 0.0))
+        if g.number_of_nodes() > 16:
+            res.count("large_sparse_graphs")
     edges = [tuple(e) for e in g.edges()]
     maxc = [frozenset(c) for c in nx.find_cliques(g)]
     omega = max(len(c) for c in maxc)
     m0s = list(range(2, omega + 2)) if "atlas" in case else sorted({2, rng.randint(2, omega + 1), rng.choice([omega, omega + 1, max(2, omega - 1)])})
+    if g.number_of_nodes() > 16:
+        m0s = sorted(set(rng.sample([2, 3, 4, 5, 6], 2)) | {rng.choice([4, 5])})
     any_nt = False
     for m0 in m0s:
         res.count("pairs")
